@@ -487,11 +487,13 @@ func (w *World) applyMsg(o Op) (res Result) {
 		panic("harness: unknown op kind " + o.Kind)
 	}
 	h := w.B.App.MsgServiceRouter().Handler(msg)
-	if h == nil {
-		panic("harness: no handler for " + sdk.MsgTypeURL(msg))
-	}
 	if w.Rig != nil {
 		h = w.Rig.handle
+	}
+	if h == nil {
+		// the module's message service is not registered with the application: no transaction
+		// carrying this message can be executed
+		return Result{Err: "the application has no handler for " + sdk.MsgTypeURL(msg)}
 	}
 	cc, write := w.Ctx.CacheContext()
 	func() {
